@@ -695,3 +695,8 @@ def run(ctx):
     # the small accessors and pass-through wrappers the rules above look through by name return what their names say (rules/accessors.py)
     from rules import accessors as _acc
     _acc.rule_accessors(ctx, "C11")
+    # a failed thread-name read leaves "all other streams intact" only if the name stream still counts and places its entries right when some
+    # threads have no name (same rule instances as C15/index-bound, C01/count-array restricted to the thread-name stream)
+    from rules import c01 as _c01n
+    n_ib = _c01n.index_bound_sites(ctx, "C11/name-stream-index-bound", only_fn="linux::sections::thread_names_stream::write")
+    ctx.floor("C11/name-stream-index-bound", "set_value_at call sites in the thread-name stream", n_ib, 1)
